@@ -185,6 +185,12 @@ def field_attr(f):
     if f.tag is not None:
         items.append("tag(%d)" % f.tag)
     items += f.t.attrs
+    if f.b and f.t.lifetime and not f.t.free_b:
+        # the borrow is needed for the program to compile at all: keep it in the short spelling, so
+        # that the `cbor(b(..))` spelling is exercised where its effect is observable at run time
+        # (Cow / &str / &[u8] fields, whose provenance is monitored) rather than as a build failure
+        rest = items[1:]
+        return "#[%s]%s" % (items[0], " #[cbor(%s)]" % ", ".join(rest) if rest else "")
     # alternate between the short and the cbor(...) spelling of the index
     if len(items) == 1 and f.index % 2 == 0:
         return "#[%s]" % items[0]
